@@ -73,3 +73,25 @@ type Result struct {
 	Unsupported string   `json:"unsupported,omitempty"`
 	WallMs      int64    `json:"wall_ms"`
 }
+
+// Trace is the provider-level projection of one complete execution with its outcome.
+type Trace struct {
+	Proj     []string `json:"proj"` // enter:P, exit:P, cancel
+	Term     string   `json:"term"`
+	Err      string   `json:"err"`
+	Returned bool     `json:"returned"`
+	Race     bool     `json:"race,omitempty"`
+}
+
+// TraceSet is the set of all (projection, outcome) pairs of one case under one scenario, obtained
+// by an exploration WITHOUT pruning (complete unless Capped).
+type TraceSet struct {
+	Pkg      string   `json:"pkg"`
+	Scenario string   `json:"scenario"`
+	Fail     []string `json:"fail,omitempty"`
+	Cancel   bool     `json:"cancel,omitempty"`
+	Traces   []Trace  `json:"traces"`
+	Execs    int      `json:"execs"`
+	Capped   bool     `json:"capped,omitempty"`
+	Race     bool     `json:"race,omitempty"`
+}
